@@ -46,6 +46,13 @@
 (*   ReductionCacheConsistent, ReductionPutsSurvive, ReductionRaceBenign.   *)
 (* Ghost variables (evIds, pushed, deliveredAll, dup, lost, written, owners, built)  *)
 (* never influence the store or a reply.                                    *)
+(*                                                                         *)
+(* Configurations (harness/drivers/g01.py): MCKeyValueStore_{prim,prim_quick,db,ev,  *)
+(* ev_hostile,ev_hostile_quick,red,red_flush}.cfg exhaustive with every property;    *)
+(* MCKeyValueStore_{prim_edges,prim_edges_thorough,proto_edges}.cfg print every      *)
+(* transition for replay into the real store; SimKeyValueStore_{all,proto}.cfg give  *)
+(* random behaviours; TraceKeyValueStore.tla validates recorded transactions.        *)
+(* Dev # "none" switches on one named deviation that TLC must refute.       *)
 (***************************************************************************)
 EXTENDS Integers, Sequences, FiniteSets, TLC, Json
 
